@@ -598,10 +598,19 @@ class Simplifier:
         caller_names = set(local) | {n.id for n in ast.walk(self.f) if isinstance(n, ast.Name)}
         self.inlined += 1
         k = self.inlined
+        helper_names = {n.id for n in ast.walk(hnode) if isinstance(n, ast.Name)} | set(h.params)
+        taken = set(caller_names) | helper_names
+
+        def fresh(base):
+            i = k
+            while '%s__%d' % (base, i) in taken:
+                i += 1
+            taken.add('%s__%d' % (base, i))
+            return '%s__%d' % (base, i)
         ren = {}
         for nm in sorted(hlocals):
             if nm in caller_names:
-                ren[nm] = '%s__%d' % (nm, k)
+                ren[nm] = fresh(nm)
         pre = []
         sub = {}
         for nm, arg in binds:
@@ -610,7 +619,7 @@ class Simplifier:
             if simple and not hstores.get(nm) and not (isinstance(arg, ast.Name) and arg.id in hlocals and arg.id not in ren):
                 sub[nm] = arg
             else:
-                tmp = nm if (nm not in caller_names and nm not in hlocals) else '%s__%d' % (nm, k)
+                tmp = nm if (nm not in caller_names and nm not in hlocals) else fresh(nm)
                 ren[nm] = tmp
                 pre.append(ast.copy_location(ast.Assign([ast.Name(tmp, ast.Store())], copy.deepcopy(arg)), s))
                 pre[-1]._temp = True
@@ -622,7 +631,7 @@ class Simplifier:
                         seen_ids.add(id(n))
                         n.id = ren[n.id]
         if tree is not None:
-            res = '%s__%d' % ('result', k)
+            res = fresh('result')
             body = _arms_to_assign([Subst(sub).visit(b) for b in tree], res if how == 'assign' else None)
             out = pre + body
             if how == 'assign':
@@ -651,6 +660,70 @@ class Simplifier:
                 n._via_helper = h.qn
         self.via.append(h.qn)
         return out or [ast.copy_location(ast.Pass(), s)]
+
+    def rename_copied_temps(self):
+        """`x = t` (or `a, b = (t, u)`) where t is one of our fresh locals read nowhere else and x is bound nowhere else: t is
+        simply called x from the start"""
+        counts = stores(self.f)
+        params = set(_params(self.f.args))
+        names = [n for n in ast.walk(self.f) if isinstance(n, ast.Name)]
+        for st in ast.walk(self.f):
+            if not (isinstance(st, ast.Assign) and len(st.targets) == 1):
+                continue
+            tg, val = st.targets[0], st.value
+            if isinstance(tg, ast.Name) and isinstance(val, ast.Name):
+                pairs = [(tg.id, val.id)]
+            elif isinstance(tg, (ast.Tuple, ast.List)) and isinstance(val, (ast.Tuple, ast.List)) and len(tg.elts) == len(val.elts) and tg.elts \
+                    and all(isinstance(a, ast.Name) and isinstance(b, ast.Name) for a, b in zip(tg.elts, val.elts)):
+                pairs = [(a.id, b.id) for a, b in zip(tg.elts, val.elts)]
+            else:
+                continue
+            if len({x for x, _ in pairs}) != len(pairs) or len({t for _, t in pairs}) != len(pairs):
+                continue
+            order = {id(n): i for i, n in enumerate(ast.walk(self.f))}
+            # ast.walk is breadth-first: use a depth-first numbering instead
+            order = {}
+
+            def number(n):
+                order[id(n)] = len(order)
+                for c in ast.iter_child_nodes(n):
+                    number(c)
+            number(self.f)
+            ok = True
+            for x, t in pairs:
+                # t is one of our fresh locals, bound only before the copy; x is bound only by the copy: from its first binding on t
+                # can simply be called x
+                t_stores = [n for n in names if n.id == t and isinstance(n.ctx, (ast.Store, ast.Del))]
+                if not ('__' in t and t not in params and x not in params and counts.get(x) == 1 and t_stores
+                        and all(order[id(n)] < order[id(st)] for n in t_stores)):
+                    ok = False
+                # (in a loop the next pass binds t again before the copy: x, bound only by the copy, must not be looked at ahead of it)
+                if any(n.id == x and isinstance(n.ctx, ast.Load) and order[id(n)] < order[id(st)] for n in names):
+                    ok = False
+            if not ok:
+                continue
+            m = dict((t, x) for x, t in pairs)
+            for n in names:
+                if n.id in m:
+                    n.id = m[n.id]
+            # the copy itself is now x = x
+            self._drop(st)
+            self.changed = True
+            return True
+        return False
+
+    def _drop(self, st):
+        for owner in ast.walk(self.f):
+            for fld in ('body', 'orelse', 'finalbody'):
+                blk = getattr(owner, fld, None)
+                if isinstance(blk, list) and any(b is st for b in blk):
+                    blk[:] = [b for b in blk if b is not st] or [ast.copy_location(ast.Pass(), st)]
+                    return
+            if isinstance(owner, ast.Try):
+                for hd in owner.handlers:
+                    if any(b is st for b in hd.body):
+                        hd.body[:] = [b for b in hd.body if b is not st] or [ast.copy_location(ast.Pass(), st)]
+                        return
 
     def forward_temps(self, stmts):
         """`t = E` directly followed by `X = t` / `return t` where t is read nowhere else: the value is written in place (an
@@ -837,6 +910,8 @@ class Simplifier:
             self.propagate(counts)
             while self.forward_temps(self.f.body):
                 pass
+            while self.rename_copied_temps():
+                pass
             # a local function nothing refers to any more
             used = {n.id for n in ast.walk(self.f) if isinstance(n, ast.Name)}
             keep = [d for d in self.f.body if not (isinstance(d, ast.FunctionDef) and d.name not in used and any(q.endswith('.' + d.name) for q in self.via))]
@@ -847,6 +922,49 @@ class Simplifier:
                 break
         ast.fix_missing_locations(self.f)
         return self.f
+
+
+def renumber(fnode):
+    """A rewritten function holds statements from several places of the file.  Rules order constructs of one function by line
+    number; so the statements are numbered again, one line each in the order they now stand (from the def line on), and the line
+    each node came from is kept in `_src_lineno` for reports."""
+    counter = [getattr(fnode, 'lineno', 1)]
+
+    def expr_nodes(st):
+        # nodes of the statement that are not part of a nested statement
+        stack = [c for c in ast.iter_child_nodes(st) if not isinstance(c, ast.stmt)]
+        while stack:
+            n = stack.pop()
+            yield n
+            if isinstance(n, ast.ExceptHandler):
+                stack.extend(c for c in ast.iter_child_nodes(n) if not isinstance(c, ast.stmt))
+                continue
+            stack.extend(c for c in ast.iter_child_nodes(n) if not isinstance(c, ast.stmt))
+
+    def visit(stmts):
+        for st in stmts:
+            counter[0] += 1
+            for n in [st] + list(expr_nodes(st)):
+                if hasattr(n, 'lineno'):
+                    if not hasattr(n, '_src_lineno'):
+                        n._src_lineno = n.lineno
+                    n.lineno = counter[0]
+                    if hasattr(n, 'end_lineno'):
+                        n.end_lineno = counter[0]
+            for fld in ('body', 'orelse', 'finalbody'):
+                b = getattr(st, fld, None)
+                if isinstance(b, list) and b and isinstance(b[0], ast.stmt):
+                    visit(b)
+            for hd in getattr(st, 'handlers', []) or []:
+                counter[0] += 1
+                if hasattr(hd, 'lineno'):
+                    if not hasattr(hd, '_src_lineno'):
+                        hd._src_lineno = hd.lineno
+                    hd.lineno = counter[0]
+                visit(hd.body)
+            for case in getattr(st, 'cases', []) or []:
+                visit(case.body)
+    visit(fnode.body)
 
 
 _VOCAB = None
@@ -887,12 +1005,58 @@ def normalise(p):
             before = ast.dump(work)
             work = sim.run()
             if sim.via and ast.dump(work) != before:
+                renumber(work)
                 f.node.body = work.body
                 f.inlined = list(sim.via)
                 done.append((qn, list(sim.via)))
         except RecursionError:
             continue
+    if done:
+        _drop_unreferenced(p, {h for _q, via in done for h in via}, vocab)
     return done
+
+
+def _drop_unreferenced(p, inlined, vocab):
+    """A new helper that has been read in place at every one of its call sites and is mentioned nowhere else is not part of the
+    program any more (rules that go through all methods of a class would otherwise meet a function nobody calls, whose parameters
+    have no call site to be resolved at).  One that is still mentioned anywhere - an uninlined call, a reference as a value, an
+    `__all__` string - stays."""
+    for qn in sorted(inlined, key=len, reverse=True):
+        h = p.funcs.get(qn) if qn in dict.keys(p.funcs) else None
+        if h is None or qn in vocab:
+            # a local function: its def was removed from the parent's body if nothing refers to it
+            if h is None:
+                continue
+        name = h.name
+        mentioned = False
+        for m in p.modules.values():
+            for n in ast.walk(m.tree):
+                if n is h.node:
+                    continue
+                if isinstance(n, ast.Name) and n.id == name or isinstance(n, ast.Attribute) and n.attr == name or \
+                        isinstance(n, ast.Constant) and n.value == name or isinstance(n, ast.alias) and n.name == name:
+                    if not any(x is n for x in ast.walk(h.node)):
+                        mentioned = True
+                        break
+            if mentioned:
+                break
+        if mentioned:
+            continue
+        # is the def still in its parent's body?
+        owners = [h.mod.tree] + [c.node for c in p.classes.values() if c.mod is h.mod] + [f.node for f in p.funcs.values() if f.mod is h.mod and f is not h]
+        for o in owners:
+            body = getattr(o, 'body', None)
+            if isinstance(body, list) and any(b is h.node for b in body):
+                body[:] = [b for b in body if b is not h.node] or [ast.Pass()]
+        for q in [q for q in list(dict.keys(p.funcs)) if q == qn or q.startswith(qn + '.<locals>.')]:
+            del p.funcs[q]
+        if h.cls is not None and h.cls.methods.get(name) is h:
+            del h.cls.methods[name]
+        if h.cls is None and h.parent is None and h.mod.syms.get(name) is not None and h.mod.syms[name].target == qn:
+            del h.mod.syms[name]
+        bm = getattr(p, '_bymeth', None)
+        if bm is not None and name in bm:
+            bm[name].discard(h)
 
 
 def _has_return(st):
@@ -1082,6 +1246,7 @@ def flat(p, f, root=None):
         work = sim.run()
         via = via + sim.via
         if node is not None or ast.dump(work) != before:
+            renumber(work)
             g = Func(f.qn + '[specialised]', work, f.mod, f.cls, None)
             g.name = f.name
             g.original = f
